@@ -72,6 +72,9 @@ func checkC09(w *World, r *Report) {
 	// "an update function that fails leaves the atom unchanged": its error reaches swap! through whatever
 	// builtins the program composed the update from (update-in, apply ...)
 	droppedErrorRule(w, r, "C09.update-error")
+	// "an update function that reads atoms (or looks names up) cannot block the evaluation forever": the lookup's
+	// ascent through the scopes takes one lock per scope, never the same lock twice
+	ownLockRule(w, r, e, "C09.scope-lock")
 	readersWriteNothingRule(w, r, e, "C09.readers-pure", "Atom", w.roles().atomMutex)
 	releaseOnPanicRule(w, r, e, "C09.release-on-panic", w.pkgFuncs("lib/concurrent"))
 	// "swap! ... installs and returns the result": swap!, reset! and deref reach programs through the binder's
@@ -1249,7 +1252,7 @@ func checkC11(w *World, r *Report) {
 	// shared globals that are atoms: a swap! retried because another evaluation got in first computes what it
 	// computes alone (the library's memoize, gensym and counters rest on it)
 	r.include("C11.atom-", "C09.", "an evaluation that updates a shared atom with swap! gets f(current, args...) also when it has to retry", checkC09, func(rule string) bool {
-		return rule == "C09.rmw" || rule == "C09.install" || rule == "C09.version" || rule == "C09.guard" || rule == "C09.lisp-monotone"
+		return rule == "C09.rmw" || rule == "C09.install" || rule == "C09.version" || rule == "C09.guard" || rule == "C09.lisp-monotone" || rule == "C09.no-reentry"
 	})
 	// "each evaluation that only reads shared globals ... returns exactly what it returns alone": the values the
 	// globals hold are shared by all evaluations, so no builtin may write into a value it was handed
@@ -1269,27 +1272,7 @@ func checkC11(w *World, r *Report) {
 	r.rule("C11.no-reentry", "no function of package env acquires a scope's mutex while it already holds it, or calls with the lock held a function that locks the same scope (sync.RWMutex is not re-entrant even for readers: concurrent evaluations on the shared environment would block each other forever)")
 	nre := reentryRule(w, r, e, "C11.no-reentry", w.pkgFuncs("env"))
 	r.floor("C11.no-reentry", "calls and acquisitions made with a scope lock held", nre, 3)
-	// own lock
-	r.rule("C11.own-lock", "every scope has a mutex of its own: the mu field of an Env is only ever assigned a mutex allocated in the same activation (the ascent to the outer scope locks the outer scope while the inner one is read-locked; with one shared mutex that is a recursive read lock, which dead-locks as soon as a writer queues between the two)")
-	nl := 0
-	for _, fn := range w.pkgFuncs("env") {
-		for _, b := range fn.Blocks {
-			for _, in := range b.Instrs {
-				st, ok := in.(*ssa.Store)
-				if !ok {
-					continue
-				}
-				fa, ok := st.Addr.(*ssa.FieldAddr)
-				if !ok || fieldName(fa.X.Type(), fa.Field) != w.roles().envMu {
-					continue
-				}
-				nl++
-				al, isAl := st.Val.(*ssa.Alloc)
-				r.check(isAl && al.Parent() == fn, "C11.own-lock", fn, "mutex given to a scope", st.Pos(), "a mutex allocated here", "the scope's mutex is not its own ("+describeVal(e, st.Val, 0)+"): scopes sharing a mutex turn the lookup's ascent into a recursive read lock")
-			}
-		}
-	}
-	r.floor("C11.own-lock", "stores to Env.mu", nl, 1)
+	ownLockRule(w, r, e, "C11.own-lock")
 	r.rule("C11.shared-state", "the atoms created while the embedded headers are loaded (outside every fn body) are shared by all evaluations on the environment; the confirmed inventory is a monotone counter (gensym) and a monotone set (load-file-once): any other load-time atom is state through which evaluations can see each other's data")
 	loadTimeAtomRule(w, r, "C11.shared-state")
 	r.rule("C11.lisp", "the library's per-evaluation unique values (gensym) come from the value swap! installed, not from a second read of the shared counter (shared with C09.lisp)")
@@ -2047,7 +2030,7 @@ func sharedStateRule(w *World, r *Report, rule string, onlyPkgs ...string) {
 		if len(onlyPkgs) > 0 {
 			in := false
 			for _, p := range onlyPkgs {
-				in = in || fnPkgPath(fn) == modPath+"/"+p
+				in = in || fnPkgPath(fn) == modPath+"/"+p || (p == "" && fnPkgPath(fn) == modPath)
 			}
 			if !in {
 				continue
@@ -2489,4 +2472,28 @@ func statusBuiltinRule(w *World, r *Report, rule string) {
 		}
 	}
 	r.floor(rule, "answers of the status builtins", n, 2)
+}
+
+// ownLockRule: every scope has a mutex of its own.
+func ownLockRule(w *World, r *Report, e *Engine, rule string) {
+	r.rule(rule, "every scope has a mutex of its own: the mu field of an Env is only ever assigned a mutex allocated in the same activation (the ascent to the outer scope locks the outer scope while the inner one is read-locked; with one shared mutex that is a recursive read lock, which dead-locks as soon as a writer queues between the two)")
+	nl := 0
+	for _, fn := range w.pkgFuncs("env") {
+		for _, b := range fn.Blocks {
+			for _, in := range b.Instrs {
+				st, ok := in.(*ssa.Store)
+				if !ok {
+					continue
+				}
+				fa, ok := st.Addr.(*ssa.FieldAddr)
+				if !ok || fieldName(fa.X.Type(), fa.Field) != w.roles().envMu {
+					continue
+				}
+				nl++
+				al, isAl := st.Val.(*ssa.Alloc)
+				r.check(isAl && al.Parent() == fn, rule, fn, "mutex given to a scope", st.Pos(), "a mutex allocated here", "the scope's mutex is not its own ("+describeVal(e, st.Val, 0)+"): scopes sharing a mutex turn the lookup's ascent into a recursive read lock")
+			}
+		}
+	}
+	r.floor(rule, "stores to Env.mu", nl, 1)
 }
